@@ -5,6 +5,7 @@ pub mod refcodec;
 pub mod render;
 pub mod tamper;
 pub mod ty;
+pub mod typelists;
 pub mod val;
 
 pub use ty::{Decl, DeclBody, Field, Record, Shape, Step, Ty, Variant};
